@@ -67,6 +67,9 @@ for p in props:
     asm = [(k, ci.name) for k, lst in sorted(cs.assumed.items()) for ci in lst if pid in ci.props]
     if ver:
         out.append("**Functions under verified contract** (" + str(len(ver)) + "): " + ", ".join(f"`{k.split(':')[1]}`" for k, _ in ver) + ".\n")
+    lem = [n for n, ci in sorted(cs.lemma_classes.items()) if pid in ci.props]
+    if lem:
+        out.append("**Lemmas proved by induction over the object graph:** " + ", ".join(f"`{n}`" for n in lem) + ".\n")
     if asm:
         out.append("**Assumed contracts used:** " + ", ".join(f"`{k.split(':')[1]}`" for k, _ in asm) + ".\n")
     bp = os.path.join(ROOT, "bounded", pid.lower() + ".py")
